@@ -34,3 +34,15 @@ Theorem c14_response_limited : forall status cr cl offset length flength lim,
   get_decide status cr cl offset length flength = GCopy lim -> lim = length.
 Proof. exact get_decide_limit. Qed.
 Print Assumptions c14_response_limited.
+
+(* Release accounting: any sequence of Writes (any sizes, whatever AddData accepts or refuses)
+   followed by Close reports consecutive ranges - TorData for what was stored, TorDrop for the
+   remainder - that start at the writer's initial offset and add up to exactly the length that was
+   reserved; nothing is released twice, nothing is forgotten. *)
+Theorem c14_writer_releases_all : forall pl s ws,
+  w_ok s ->
+  let (s1, evs) := w_run pl s ws in
+  let (s2, cl) := w_Close s1 in
+  chained (w_off s) (released (evs ++ cl)) /\ total_rel (released (evs ++ cl)) = w_count s /\ w_count s2 = 0.
+Proof. exact writer_releases_all. Qed.
+Print Assumptions c14_writer_releases_all.
